@@ -279,9 +279,14 @@ def run(ctx):
     fm = ForkModel(prog)
     allowed = {(ri.path, bb) for bb, _ in E.writes} | {(dr.path, bb) for bb, _ in E.reads}
     if fm.ok:
+        # the launch-status channel: the parent's read in os_start and the child's report (in os_start or in a child-only helper)
         for bb, t in fm.fn.calls():
             if is_file_io(M.callee_str(t["f"])):
                 allowed.add((fm.fn.path, bb))
+        for p_ in fm.child_only_fns():
+            for bb, t in prog.fns[p_].calls():
+                if is_file_io(M.callee_str(t["f"])):
+                    allowed.add((p_, bb))
     for ent in ENTRY:
         f = prog.fn(ent)
         if f is None:
